@@ -160,6 +160,8 @@ def compare_sources(kind, orig, back, res, fmt, single):
                 ok = int(getattr(b, a)) == int(getattr(o, a)) and float(getattr(b, a)) == float(getattr(o, a))
             except (TypeError, ValueError):
                 ok = False
+            if fmt == "db" and not isinstance(getattr(b, a), int):
+                ok = False      # "the same rows": a number stored as text ('10') sorts and compares differently in SQL
             if not ok:
                 res.bad("int-field", "%s %s row %d: %s wrote %r read %r" % (fmt, kind, k, a, getattr(o, a), getattr(b, a)), fmt=fmt)
                 return
@@ -169,7 +171,7 @@ def compare_sources(kind, orig, back, res, fmt, single):
                         fmt=fmt, attr=a)
                 return
         for a in FLOAT_ATTRS[kind]:
-            if not same_number(getattr(o, a), getattr(b, a), single):
+            if not same_number(getattr(o, a), getattr(b, a), single) or (fmt == "db" and isinstance(getattr(b, a), (str, bytes))):
                 res.bad("float-field", "%s %s row %d: %s wrote %r read %r" % (fmt, kind, k, a, getattr(o, a), getattr(b, a)),
                         fmt=fmt, attr="err" if a.startswith("err_") else "value")
                 return
